@@ -37,6 +37,7 @@ type c14send struct {
 	tgt    int
 	id     string
 	rec    *simnet.DgramRec
+	key    *Key // the key it is sent under (now and then another configured key than the client's usual one)
 }
 
 type c14assoc struct {
@@ -52,6 +53,7 @@ type c14assoc struct {
 	fuzzy    bool // a datagram arrived inside the don't-care instant; stop judging
 	ended    bool
 	why      string
+	key      *Key
 }
 
 func runC14(rc *RunCtx) {
@@ -147,7 +149,19 @@ func runC14(rc *RunCtx) {
 				at += gaps[G.Draw(len(gaps))]
 			}
 			ti := G.Draw(4)
-			s := &c14send{client: c, at: at, dns: ti < 2, tgt: ti, id: fmt.Sprintf("q%d-%d", c, k)}
+			s := &c14send{client: c, at: at, dns: ti < 2, tgt: ti, id: fmt.Sprintf("q%d-%d", c, k), key: key}
+			if G.Draw(6) == 0 {
+				// a datagram under another configured key from the same client address
+				// (a client that switched keys, a NAT that reused the port): it is no
+				// traffic of an association that lives under the first key
+				for _, o := range keys {
+					if !sameCrypto(o, key) {
+						s.key = o
+						simrt.Probe("datagram_under_another_configured_key")
+						break
+					}
+				}
+			}
 			mine = append(mine, s)
 			sends = append(sends, s)
 			rc.D("client %d sends %s at %v to target %d (dns=%v)", c, s.id, at, ti, s.dns)
@@ -160,7 +174,7 @@ func runC14(rc *RunCtx) {
 				}
 				ta := tgts[s.tgt].sock.LocalAddr().(*net.UDPAddr)
 				plain := append(append([]byte{}, socksAddr(ta.String())...), []byte(s.id+"|q")...)
-				sock.WriteToUDP(packUDP(key, plain), &net.UDPAddr{IP: proxyIP, Port: 9000})
+				sock.WriteToUDP(packUDP(s.key, plain), &net.UDPAddr{IP: proxyIP, Port: 9000})
 				s.rec = sock.LastSent
 			}
 		})
@@ -293,12 +307,17 @@ func runC14(rc *RunCtx) {
 				a.fuzzy = true // arrived within [D, D+skew+B]: either outcome is fine
 				rc.Probe("datagram_at_deadline_instant")
 			}
+			if a != nil && !sameCrypto(a.key, e.send.key) {
+				// not this association's traffic: it neither extends it nor replaces it
+				rc.Probe("datagram_under_another_key_on_a_live_association")
+				continue
+			}
 			to := T
 			if e.send.dns {
 				to = dnsT
 			}
 			if a == nil {
-				a = &c14assoc{client: c, created: e.at, D: e.at + to, writes: 1, firstDNS: e.send.dns, armed: e.send.dns, why: "timeout"}
+				a = &c14assoc{client: c, created: e.at, D: e.at + to, writes: 1, firstDNS: e.send.dns, armed: e.send.dns, why: "timeout", key: e.send.key}
 				for _, p := range assocs {
 					if p.client == c && p.fuzzy {
 						// after a don't-care instant the model no longer knows which of the
@@ -398,7 +417,7 @@ func runC14(rc *RunCtx) {
 						later++
 					}
 				}
-				if sentBefore == 1 && later == 0 && r.T <= r.At+skew && firstDNS && haveFirst {
+				if sentBefore == 1 && later == 0 && r.T <= r.At+skew+B && firstDNS && haveFirst {
 					for j, rec := range sk.ReadLog {
 						if sk.ReadSeqs[j] < r.Seq && rec.From.Port == 53 {
 							legit = true
@@ -525,10 +544,10 @@ func runC14(rc *RunCtx) {
 // c14leaks: "idle clients never accumulate goroutines". When the system is idle
 // and every deadline has passed, a goroutine of the code under test that was
 // not there before the first datagram is a leak if it waits on a UDP socket (an
-// association's relay loop whose socket was never closed), or if there are as
-// many of them as there were associations (three or more: one per association).
-// A helper or two that the handler starts lazily and keeps for its own lifetime
-// do not accumulate.
+// association's relay loop whose socket was never closed), or if they were
+// started at three or more different instants of a run with three or more
+// associations. Helpers that the handler starts lazily, together, and keeps for
+// its own lifetime do not accumulate.
 func c14leaks(rc *RunCtx, base map[int]bool, nAssoc int) {
 	var extra []simrt.TaskInfo
 	for _, t := range simrt.Snapshot() {
@@ -542,7 +561,13 @@ func c14leaks(rc *RunCtx, base map[int]bool, nAssoc int) {
 			return
 		}
 	}
-	if nAssoc >= 3 && len(extra) >= nAssoc {
-		rc.Failf("association-task-leak", "%d associations have come and gone, the system is idle, and %d goroutines that were not there before the first datagram are still alive (one per association):%s", nAssoc, len(extra), describeTasks(extra))
+	// (accumulation: started at three or more different instants of the run; a pool
+	// of helpers started together, whatever its size, is one instant)
+	instants := map[time.Duration]bool{}
+	for _, t := range extra {
+		instants[t.Spawned] = true
+	}
+	if nAssoc >= 3 && len(instants) >= 3 {
+		rc.Failf("association-task-leak", "%d associations have come and gone, the system is idle, and %d goroutines that were not there before the first datagram, started at %d different instants, are still alive:%s", nAssoc, len(extra), len(instants), describeTasks(extra))
 	}
 }
